@@ -99,10 +99,10 @@ def units_of(blocks):
         units[("h", hid)] = None
         for k, line in enumerate(lines):
             ln += 1
-            if '"cuts":[]' in line or '"cuts"' not in line:
+            if '"cuts":[{' not in line:
                 continue
             e = json.loads(line)
-            for j, c in enumerate(e["cuts"]):
+            for j, c in enumerate(e.get("cuts") or []):
                 units[("c", hid, k, j + 1)] = (ln, c)
     return units
 
